@@ -9,6 +9,7 @@ from .prog import Case, S
 PROPERTY = "C11"
 LEVEL = "exploration"
 HARNESS = "hgdrive"
+SANITIZE = "asan"      # thorough tier: same batch under -fsanitize=address,undefined
 RULE = ("random key/element histories (adds, removes, updates, several per cycle, shrink to empty and regrow, growth to 130 "
         "keys across capacity boundaries) over TSD<Int,TS<Int>> and fixed TSL<TS<Int>,3>; combiners sum / max / xor as node, "
         "as registered operator (add_) and as sub-graph; marker combiner a+b+1000 restricted to <= 2 live elements to pin the "
